@@ -33,6 +33,7 @@ def place(f):
     d = wt if pkg.startswith('httpcache') else os.path.join(wt, 'internal') if pkg == 'internal' else wt
     if 'fscache' in pkg: d = os.path.join(wt, 'store', 'fscache')
     if 'memcache' in pkg: d = os.path.join(wt, 'store', 'memcache')
+    if 'expapi' in pkg: d = os.path.join(wt, 'store', 'expapi')
     dst = os.path.join(d, os.path.basename(f)); shutil.copy(f, dst); return d, dst
 placed = [place(f) for f in demos]
 def run_demo():
